@@ -65,31 +65,42 @@ function mkdesc(d) {
 }
 function venc(v) { return v === undefined ? 0 : (typeof v === 'number' && v >= 1 && v < 9e15 && Math.floor(v) === v) ? v : 999999; }
 function fenc(f, tab) { if (f === undefined) return 0; var i = tab.indexOf(f); return i < 0 ? 77 : i + 1; }
-function ent(o, k, out) {
+// NOTE: Array.prototype gets indexed properties during a case, so helper code must never use [[Set]] on its own
+// arrays (push, a[i]=v): buffers are Float64Arrays, results are built with Array.from / literals (CreateDataProperty).
+var BUF = new Float64Array(65536), BN = 0;
+function put4(a, b, c, d) { if (BN + 4 <= 65536) { BUF[BN++] = a; BUF[BN++] = b; BUF[BN++] = c; BUF[BN++] = d; } }
+function ent(o, k) {
   var d = Object.getOwnPropertyDescriptor(o, k);
-  if (d === undefined) { out.push(Number(k), 98, 0, 0); return; }
-  if ('value' in d || 'writable' in d) out.push(Number(k), (d.writable ? 4 : 0) + (d.enumerable ? 2 : 0) + (d.configurable ? 1 : 0), venc(d.value), 0);
-  else out.push(Number(k), 8 + (d.enumerable ? 2 : 0) + (d.configurable ? 1 : 0), fenc(d.get, G), fenc(d.set, S));
+  if (d === undefined) { put4(Number(k), 98, 0, 0); return; }
+  if ('value' in d || 'writable' in d) put4(Number(k), (d.writable ? 4 : 0) + (d.enumerable ? 2 : 0) + (d.configurable ? 1 : 0), venc(d.value), 0);
+  else put4(Number(k), 8 + (d.enumerable ? 2 : 0) + (d.configurable ? 1 : 0), fenc(d.get, G), fenc(d.set, S));
 }
 function dump(o) {
-  var keys = Reflect.ownKeys(o), els = [], ots = [];
-  for (var i = 0; i < keys.length; i++) {
-    var k = keys[i];
-    if (typeof k !== 'string') continue;
-    var n = Number(k);
-    if (String(n) !== k || n < 0 || Math.floor(n) !== n) continue;
-    if (n < 4294967295) ent(o, k, els); else ent(o, k, ots);
+  var keys = Reflect.ownKeys(o), nEls = 0;
+  BN = 4;
+  for (var pass = 0; pass < 2; pass++) {
+    for (var i = 0; i < keys.length; i++) {
+      var k = keys[i];
+      if (typeof k !== 'string') continue;
+      var n = Number(k);
+      if (String(n) !== k || n < 0 || Math.floor(n) !== n) continue;
+      if ((n < 4294967295) === (pass === 0)) { ent(o, k); if (pass === 0) nEls++; }
+    }
   }
   var ld = Object.getOwnPropertyDescriptor(o, 'length');
-  var lv = ld && typeof ld.value === 'number' && ld.value >= 0 && Math.floor(ld.value) === ld.value ? ld.value : 999998;
-  return [lv, ld && ld.writable ? 1 : 0, Object.isExtensible(o) ? 1 : 0, els.length / 4].concat(els, ots);
+  BUF[0] = ld && typeof ld.value === 'number' && ld.value >= 0 && Math.floor(ld.value) === ld.value ? ld.value : 999998;
+  BUF[1] = ld && ld.writable ? 1 : 0; BUF[2] = Object.isExtensible(o) ? 1 : 0; BUF[3] = nEls;
+  return Array.from(BUF.subarray(0, BN));
 }
+var VB = new Float64Array(1024);
 function view(r) {
   if (!Array.isArray(r)) return [-5];
-  var out = [];
-  for (var i = 0; i < r.length && i < 1000; i++) out.push(hop.call(r, i) ? venc(r[i]) : -1);
-  return out;
+  var n = Math.min(r.length, 1000);
+  for (var i = 0; i < n; i++) VB[i] = hop.call(r, i) ? venc(r[i]) : -1;
+  return Array.from(VB.subarray(0, n));
 }
+function viewAL(a) { var n = Math.min(a.length, 1000); for (var i = 0; i < n; i++) VB[i] = (i in a) ? venc(a[i]) : -1; return Array.from(VB.subarray(0, n)); }
+function cdp(r, i, v) { Object.defineProperty(r, i, { value: v, writable: true, enumerable: true, configurable: true }); }
 var AP = Array.prototype;
 function cmpfn(ck) {
   switch (ck) {
@@ -100,13 +111,13 @@ function cmpfn(ck) {
   }
   return undefined;
 }
-var LOG = [];
+var LOGB = new Float64Array(30000), LN = 0;
 function randcmp(seed) {
-  LOG = [];
+  LN = 0;
   return function (a, b) {
     var h = (a * 7919 + b * 104729 + seed * 31) % 1000003; h = (h * h + 12345) % 1000003;
     var r = (h % 3) - 1;
-    LOG.push(venc(a), venc(b), r);
+    if (LN + 3 <= 30000) { LOGB[LN++] = venc(a); LOGB[LN++] = venc(b); LOGB[LN++] = r; }
     return r;
   };
 }
@@ -130,12 +141,12 @@ var H = {
     else { d.get = op.x === 0 ? undefined : G[op.x - 1]; d.set = op.y === 0 ? undefined : S[op.y - 1]; }
     Object.defineProperty(P, op.k, d);
   },
-  push: function (a, op) { return AP.push.apply(a, op.vs.map(function (v) { return v === 0 ? undefined : v; })); },
+  push: function (a, op) { return AP.push.apply(a, Array.from(op.vs, function (v) { return v === 0 ? undefined : v; })); },
   pop: function (a) { return AP.pop.call(a); },
   shift: function (a) { return AP.shift.call(a); },
-  unshift: function (a, op) { return AP.unshift.apply(a, (op.vs || []).map(function (v) { return v === 0 ? undefined : v; })); },
+  unshift: function (a, op) { return AP.unshift.apply(a, Array.from(op.vs || [], function (v) { return v === 0 ? undefined : v; })); },
   splice: function (a, op) {
-    var args = [op.st || 0]; if ('dc' in op) { args.push(op.dc); (op.vs || []).forEach(function (v) { args.push(v === 0 ? undefined : v); }); }
+    var args = [op.st || 0]; if ('dc' in op) args = [op.st || 0, op.dc].concat(Array.from(op.vs || [], function (v) { return v === 0 ? undefined : v; }));
     return view(AP.splice.apply(a, args));
   },
   reverse: function (a) { return AP.reverse.call(a) === a; },
@@ -143,16 +154,15 @@ var H = {
   copyWithin: function (a, op) { return ('en' in op ? AP.copyWithin.call(a, op.t || 0, op.st || 0, op.en) : AP.copyWithin.call(a, op.t || 0, op.st || 0)) === a; },
   slice: function (a, op) { return view('en' in op ? AP.slice.call(a, op.st || 0, op.en) : AP.slice.call(a, op.st || 0)); },
   concat: function (a, op) {
-    var args = (op.items || []).map(function (it) { var r = []; r.length = it.length; it.forEach(function (v, i) { if (v !== null) r[i] = v === 0 ? undefined : v; }); return r; });
+    var args = Array.from(op.items || [], function (it) { var r = []; r.length = it.length; for (var i = 0; i < it.length; i++) { var v = it[i]; if (v !== null && v !== undefined) cdp(r, i, v === 0 ? undefined : v); } return r; });
     return view(AP.concat.apply(a, args));
   },
   concatv: function (a, op) { return view(AP.concat.call(a, op.v === 0 ? undefined : op.v)); },
   indexOf: function (a, op) { return AP.indexOf.call(a, op.v === 0 ? undefined : op.v, op.st || 0); },
   includes: function (a, op) { return AP.includes.call(a, op.v === 0 ? undefined : op.v, op.st || 0); },
   sort: function (a, op) { return AP.sort.call(a, cmpfn(op.ck || 0)) === a; },
-  sortrand: function (a, op) { var ok = AP.sort.call(a, randcmp(op.seed || 0)) === a; return [ok ? 1 : 0, LOG, viewAL(a)]; },
+  sortrand: function (a, op) { var ok = AP.sort.call(a, randcmp(op.seed || 0)) === a; return [ok ? 1 : 0, Array.from(LOGB.subarray(0, LN)), viewAL(a)]; },
 };
-function viewAL(a) { var out = [], l = a.length; for (var i = 0; i < l && i < 1000; i++) out.push((i in a) ? venc(a[i]) : -1); return out; }
 function run(name, a, op, P) {
   try { return [0, H[name](a, op, P), dump(a)]; }
   catch (e) { return [e instanceof TypeError ? 1 : e instanceof RangeError ? 2 : 3, undefined, dump(a)]; }
@@ -164,6 +174,7 @@ function mk(kind, init) {
   a.length = init.length;
   return [a, P];
 }
+function nonconf(a, k) { var d = Object.getOwnPropertyDescriptor(a, k); return d !== undefined && !d.configurable; }
 function toSparse(a) {
   var l = a.length, ld = Object.getOwnPropertyDescriptor(a, 'length');
   if (!Object.isExtensible(a) || !ld.writable || l > 2000000000) return false;
@@ -248,6 +259,12 @@ func num(v interface{}) int64 {
 	return -777
 }
 
+func (vr *variant) nonconf(k uint64) bool {
+	f, _ := goja.AssertFunction(vr.rt.Get("nonconf"))
+	v, err := f(goja.Undefined(), vr.a, vr.rt.ToValue(float64(k)))
+	return err == nil && v.ToBoolean()
+}
+
 func (vr *variant) length() int64 {
 	l := vr.a.Get("length")
 	if l == nil {
@@ -267,7 +284,7 @@ func coqOptZ(p *int64) string {
 	if p == nil {
 		return "None"
 	}
-	return fmt.Sprintf("(Some (%d))", *p)
+	return fmt.Sprintf("(Some (%d)%%Z)", *p)
 }
 
 func coqNs(vs []uint64) string {
@@ -360,15 +377,15 @@ func opTerm(op Op, extra string) string {
 	case "unshift":
 		return "OUnshift " + coqNs(op.Vs)
 	case "splice":
-		return fmt.Sprintf("OSplice (%d) %s %s", op.St, coqOptZ(op.Dc), coqNs(op.Vs))
+		return fmt.Sprintf("OSplice (%d)%%Z %s %s", op.St, coqOptZ(op.Dc), coqNs(op.Vs))
 	case "reverse":
 		return "OReverse"
 	case "fill":
-		return fmt.Sprintf("OFill %d (%d) %s", op.V, op.St, coqOptZ(op.En))
+		return fmt.Sprintf("OFill %d (%d)%%Z %s", op.V, op.St, coqOptZ(op.En))
 	case "copyWithin":
-		return fmt.Sprintf("OCopyWithin (%d) (%d) %s", op.T, op.St, coqOptZ(op.En))
+		return fmt.Sprintf("OCopyWithin (%d)%%Z (%d)%%Z %s", op.T, op.St, coqOptZ(op.En))
 	case "slice":
-		return fmt.Sprintf("OSlice (%d) %s", op.St, coqOptZ(op.En))
+		return fmt.Sprintf("OSlice (%d)%%Z %s", op.St, coqOptZ(op.En))
 	case "concat":
 		var its []string
 		for _, it := range op.Items {
@@ -386,9 +403,9 @@ func opTerm(op Op, extra string) string {
 	case "concatv":
 		return fmt.Sprintf("OConcatV %d", op.V)
 	case "indexOf":
-		return fmt.Sprintf("OIndexOf %d (%d)", op.V, op.St)
+		return fmt.Sprintf("OIndexOf %d (%d)%%Z", op.V, op.St)
 	case "includes":
-		return fmt.Sprintf("OIncludes %d (%d)", op.V, op.St)
+		return fmt.Sprintf("OIncludes %d (%d)%%Z", op.V, op.St)
 	case "sort":
 		return fmt.Sprintf("OSort %d", op.Ck)
 	case "sortrand":
@@ -520,7 +537,7 @@ func (vr *variant) exec(op Op, kind int) (resT, opT, dumpT string) {
 				lg, _ := tr[1].([]interface{})
 				var ls []string
 				for i := 0; i+2 < len(lg); i += 3 {
-					ls = append(ls, fmt.Sprintf("(%d%%N,%d%%N,(%d)%%Z)", num(lg[i]), num(lg[i+1]), num(lg[i+2])))
+					ls = append(ls, fmt.Sprintf("(%d,%d,(%d)%%Z)", num(lg[i]), num(lg[i+1]), num(lg[i+2])))
 				}
 				ov, _ := tr[2].([]interface{})
 				extra = "[" + strings.Join(ls, ";") + "] " + coqView(ov)
@@ -550,7 +567,7 @@ func (vr *variant) toggle() string {
 	return kind + "->" + goja.VerifArrayKind(vr.a)
 }
 
-const failTerm = "mkCase 0 [] [OPop] [] [] []"
+const failTerm = "(mkCase 0 [] [OPop] [] [] [])%N"
 
 func coqInit(init []*uint64) string {
 	xs := make([]string, len(init))
@@ -579,7 +596,14 @@ func runCase(c Case) vh.Record {
 	nontrivial := false
 	sawSortRand := false
 	for i, op := range c.Ops {
-		if c.Kind == 1 && (op.O == "deflen" || op.O == "export" || (op.O == "setlen" && op.Inv)) {
+		if c.Kind == 1 && (op.O == "deflen" || op.O == "export" || op.O == "concat" || op.O == "concatv" || (op.O == "setlen" && op.Inv)) {
+			continue
+		}
+		if (op.O == "del" && normal.length() > maxLoopLen && normal.nonconf(op.K)) ||
+			(op.O == "pop" && normal.length() > maxLoopLen && normal.nonconf(uint64(normal.length()-1))) {
+			// a failing delete (any surface) formats its message with ToString(array) first: a join over the whole
+			// length (finding N8) which does not terminate in reasonable time on long arrays
+			tags["skipped-failing-delete-on-long-array"] = true
 			continue
 		}
 		if loopingOps[op.O] && normal.length() > maxLoopLen {
@@ -632,7 +656,7 @@ func runCase(c Case) vh.Record {
 		tags["twin-own-sort-log"] = true
 	}
 	_ = sawSortRand
-	term := fmt.Sprintf("mkCase %d %s %s %s %s %s", c.Kind, coqInit(c.Init), vh.CoqList(opsN), vh.CoqList(obsN), vh.CoqList(opsT), vh.CoqList(obsT))
+	term := fmt.Sprintf("(mkCase %d %s %s %s %s %s)%%N", c.Kind, coqInit(c.Init), vh.CoqList(opsN), vh.CoqList(obsN), vh.CoqList(opsT), vh.CoqList(obsT))
 	var tl []string
 	for t := range tags {
 		tl = append(tl, t)
